@@ -747,11 +747,14 @@ class DocTest:
                 got_eval = constants.NOT_EVALED
 
                 # Extract directives and and update runtime state
-                part_directive = part.directives
-                if DEBUG:
-                    print(f'part[{partx}] directives: {part_directive}')
+                part_directive = None
                 try:
                     try:
+                        # Extracting the directives can itself fail (e.g. a
+                        # malformed directive in an indented comment line)
+                        part_directive = part.directives
+                        if DEBUG:
+                            print(f'part[{partx}] directives: {part_directive}')
                         runstate.update(part_directive)
                     except Exception as ex:
                         msg = (
